@@ -201,7 +201,7 @@ def q_sim(fl, bins):
         p.add(0, 60, 2 * k, vals[i1], ctx.int("v1", 1, 127))
         p.add(0, 62, 2 * k, ite(eq(ctx.int("same", 0, 1), 1), vals[i1], 18), ctx.int("v2", 1, 127))      # chord in one track
         p.add(1, 61, 2 * k, 24, ctx.int("v3", 1, 127))            # simultaneous across tracks
-        p.add(1, 61, 2 * k + 24 + 2 * ctx.int("g", 0, 40), 12, 64)  # second track is longer
+        p.add(1, 61, 2 * k + 24 + 2 * ctx.int("g", 0, 12), 12, 64)  # second track is longer
         return roundtrip(ctx, tok, p)
     return Query(f"simultaneous/f{''.join(str(int(x)) for x in fl)}-b{bins}", fn, CL,
                  desc="chord, simultaneous notes across tracks, tracks of unequal length")
